@@ -1,4 +1,57 @@
 package catalog
 
-// costOf is filled in from measurements (see TestCalibrate).
-func costOf(e Entry) int { return 0 }
+import (
+	"github.com/tink-crypto/tink-go/v2/hybrid/ecies"
+	"github.com/tink-crypto/tink-go/v2/hybrid/hpke"
+	"github.com/tink-crypto/tink-go/v2/jwt/jwtecdsa"
+	"github.com/tink-crypto/tink-go/v2/signature/ecdsa"
+)
+
+// costOf assigns Entry.Cost: the bucket of (NewKey + build the primitive + one
+// produce operation) on the harness machine, 0: well under 1 ms, 1: 1–20 ms,
+// 2: slower.
+//
+// The rules below are a transcription of one serial measurement of every
+// entry (CATALOG_CALIBRATE=1 go test -run TestCalibrate -v ./catalog/, Go
+// 1.26.8, linux/amd64), not estimates:
+//
+//	RSA-based (2048/3072/4096, incl. JWT and composite)  keygen 30–1500 ms (mean), sign 1–21 ms   → 2
+//	SLH-DSA "s" sets                                      keygen 95–255 ms, sign 0.85–2.3 s        → 2
+//	SLH-DSA "f" sets                                      keygen 1.3–10 ms, sign 41–215 ms         → 2
+//	ML-DSA-44/65/87, JWT ML-DSA                           keygen 0.3–1.2 ms, sign 0.6–2.7 ms       → 1
+//	composite ML-DSA with Ed25519/ECDSA                   1.7–5.3 ms                               → 1
+//	ECDSA P-521, JWT ES512                                1.2–2.4 ms                               → 1
+//	HPKE / ECIES on P-521                                 2.2–2.4 ms                               → 1
+//	HPKE / ECIES on P-384                                 0.83–1.14 ms (not "well under" 1 ms)     → 1
+//	everything else (incl. ECDSA P-256/P-384 ≤ 0.54 ms, X-Wing / ML-KEM HPKE ≤ 0.5 ms,
+//	X25519/P-256 hybrid, all symmetric, streaming, key derivation)                                  → 0
+func costOf(e Entry) int {
+	if rsaBits(e) != 0 {
+		return 2
+	}
+	switch e.KeyType {
+	case "slhdsa":
+		return 2
+	case "mldsa", "jwtmldsa", "compositemldsa":
+		return 1
+	}
+	switch p := e.Params.(type) {
+	case *ecdsa.Parameters:
+		if p.CurveType() == ecdsa.NistP521 {
+			return 1
+		}
+	case *jwtecdsa.Parameters:
+		if p.Algorithm() == jwtecdsa.ES512 {
+			return 1
+		}
+	case *hpke.Parameters:
+		if k := p.KEMID(); k == hpke.DHKEM_P384_HKDF_SHA384 || k == hpke.DHKEM_P521_HKDF_SHA512 {
+			return 1
+		}
+	case *ecies.Parameters:
+		if c := p.CurveType(); c == ecies.NISTP384 || c == ecies.NISTP521 {
+			return 1
+		}
+	}
+	return 0
+}
